@@ -32,6 +32,8 @@ pub struct Recovered {
 	pub probe: Option<Result<(), String>>,
 	pub open3: Option<Result<Pairs, String>>,
 	pub panic: Option<String>,
+	/// value-log reference invariant violated right after the first recovery
+	pub dangling: Option<String>,
 }
 
 pub fn recover(fs: &Fs, opt: &OptSet, deep: bool) -> Recovered {
@@ -42,11 +44,17 @@ pub fn recover(fs: &Fs, opt: &OptSet, deep: bool) -> Recovered {
 		probe: None,
 		open3: None,
 		panic: None,
+		dangling: None,
 	};
 	let r = crate::util::guarded(|| {
 		fs.materialize(&dir).map_err(|e| format!("materialize: {e}")).unwrap();
 		let mut w = World::attach(opt.clone(), &dir, &PROBE_KEYS);
 		rec.open1 = w.open().and_then(|_| w.dump());
+		if rec.open1.is_ok() {
+			if let Some(m) = w.check_index_pointers() {
+				rec.dangling = Some(format!("{}: {}", m.query, m.got));
+			}
+		}
 		if rec.open1.is_err() || !deep {
 			w.abandon();
 			return;
@@ -305,6 +313,13 @@ pub fn judge(
 		}
 		Ok(c) => c,
 	};
+	if let Some(d) = &rec.dangling {
+		out.push(Finding {
+			property: "C11",
+			class: format!("recovered-store-points-into-missing-vlog-file:{pm}"),
+			text: format!("{ctx} => {d}"),
+		});
+	}
 	// model with the first generation's recovered content as base
 	let with_base = |p: usize| -> BTreeMap<Vec<u8>, Vec<u8>> {
 		let mut s = base.clone();
@@ -745,6 +760,26 @@ pub fn plan(tier: Tier, focus: &str) -> CrashPlan {
 		let mut opts = vec![OptSet::base("L2-vlog8-64-cache0").with_vlog(8, 64).cache(0)];
 		if tier == Tier::Thorough {
 			opts.push(OptSet::base("L2-versioned-index-vlog64").versioned(0, true).with_vlog(0, 64));
+		}
+		// histories in which a compaction makes a value-log file obsolete and removes it: crash
+		// points between the removal and the manifest switch matter
+		let big = |tag: &str| -> Vec<u8> {
+			let mut v = tag.as_bytes().to_vec();
+			v.resize(150, b'q');
+			v
+		};
+		let obsolete: Vec<Vec<Wop>> = vec![
+			vec![Wop::W(vec![Write::set(b"a", &big("a1"))], true), Wop::P(Phys::FlushAll), Wop::W(vec![Write::set(b"a", &big("a2"))], true), Wop::P(Phys::FlushAll), Wop::P(Phys::Compact)],
+			vec![Wop::W(vec![Write::set(b"a", &big("a1")), Write::set(b"b", &big("b1"))], true), Wop::P(Phys::FlushAll), Wop::W(vec![Write::new(Kind::Delete, b"a", b""), Write::set(b"b", &big("b2"))], true), Wop::P(Phys::FlushAll), Wop::P(Phys::Compact), Wop::P(Phys::Compact)],
+		];
+		for opt in &opts {
+			for ops in &obsolete {
+				workloads.push(Workload {
+					opt: opt.clone(),
+					ops: ops.clone(),
+					forced_height: 1,
+				});
+			}
 		}
 		for opt in opts {
 			for ops in vlog_workloads(maxlen) {
